@@ -33,6 +33,7 @@ def ops_of(body, what):
     """walk a block body; returns list of ops"""
     ops = []
     stack = [[]]         # guards per open block
+    loops = []           # per open block: is it the body of a for / while loop
     i, n = 0, len(body)
     stmt_temps = []      # temporaries of the current statement
     paren = 0
@@ -48,9 +49,16 @@ def ops_of(body, what):
             continue
         if c == "{":
             stack.append([])
+            # is this the body of a for / while loop?  (header = the text since the previous ; { or })
+            k = i - 1
+            while k >= 0 and body[k] not in ";{}":
+                k -= 1
+            loops.append(bool(re.match(r"\s*(?:'\w+\s*:\s*)?(for|while)\b", body[k + 1:i])))
         elif c == "}":
             for g in reversed(stack.pop()):
                 ops.append(f"Rel {g}")
+            if loops:
+                loops.pop()
             if not stack:
                 raise TranslateError(f"{what}: unbalanced braces")
         elif c == ";" :
@@ -63,6 +71,10 @@ def ops_of(body, what):
             if name not in MUTEX:
                 raise TranslateError(f"{what}: unknown mutex expression {name!r}")
             mx = MUTEX[name]
+            if any(loops):
+                # the op list has no repetition: a critical section per iteration (e.g. the dictionary lock taken once per conjugated word)
+                # would be flattened into ONE section and the atomicity theorems would be proved about the wrong protocol
+                raise TranslateError(f"{what}: mutex {name!r} is taken inside a for / while loop; critical sections per iteration are not representable in the protocol model")
             ops.append(f"Acq {mx}")
             if m.group(1) and m.group(3):
                 stack[-1].append(mx)          # a named guard: lives to the end of its block
